@@ -10,7 +10,9 @@ extern crate alloc;
 #[path = "/repo/crates/jiff-static/src/shared/mod.rs"]
 pub mod shared;
 
+pub mod arith;
 pub mod cal;
+pub mod gen;
 pub mod json;
 pub mod rep;
 pub mod rng;
@@ -22,6 +24,7 @@ mod c01;
 mod c02;
 mod c03;
 mod c04;
+mod c08;
 mod c14;
 
 fn main() {
@@ -67,6 +70,7 @@ fn prop_fn(name: &str) -> Option<fn(&mut rep::Ctx)> {
         "c02" => c02::run,
         "c03" => c03::run,
         "c04" => c04::run,
+        "c08" => c08::run,
         "c14" => c14::run,
         _ => return None,
     })
